@@ -80,9 +80,15 @@ def make_resolver(built, coord, spec):
 def make_type_resolver(built, spec, tag):
     def type_resolver(result, ctx, info, abstract_type):
         built.type_calls.append(tag)
-        if spec["k"] == "const": return spec["name"]
-        if isinstance(result, dict) and spec["key"] in result: return result[spec["key"]]
-        return "?"
+        if spec["k"] == "const": name = spec["name"]
+        elif isinstance(result, dict) and spec["key"] in result: name = result[spec["key"]]
+        else: name = "?"
+        if spec.get("obj") and isinstance(name, str):
+            try:
+                return info.schema.find_type(name)      # the type object itself: same meaning as its name
+            except Exception:
+                return name
+        return name
     return type_resolver
 
 async def build_engine(model, renv, cfg=None, sdl=None, engine_kwargs=None, directives=None):
